@@ -604,6 +604,14 @@ func (e *Evaluator) evalBinaryExpr(expr *ExprBinary) (*Cell, error) {
 			memberVal.ParentObj = &left.Value
 			return NewCell(memberVal), nil
 		}
+		if member.Value.Tag == ValueNativeFn {
+			// methods live in prototype cells shared by every value of the kind:
+			// bind the receiver in a copy, so that a lookup nested in the
+			// arguments (a.push(b.push(1))) cannot overwrite it
+			bound := NewCell(member.Value)
+			bound.Value.Binding = &left.Value
+			return bound, nil
+		}
 		member.Value.Binding = &left.Value
 
 		return member, nil
